@@ -43,11 +43,65 @@ fn getters(e: &Engine) -> String {
     )
 }
 
+/// An utterance as the caller hands it over: parsed labels, or (partly time-stamped) strings.
+#[derive(Clone, Debug)]
+pub enum Utt {
+    Labels(Vec<Label>),
+    Lines(Vec<String>),
+}
+
+impl Utt {
+    fn synth(&self, e: &Engine) -> Result<Vec<f64>, jbonsai::EngineError> {
+        match self {
+            Utt::Labels(l) => e.synthesize(l.clone()),
+            Utt::Lines(l) => e.synthesize(l.clone()),
+        }
+    }
+    fn generator(&self, e: &Engine) -> Result<SpeechGenerator, jbonsai::EngineError> {
+        match self {
+            Utt::Labels(l) => e.generator(l.clone()),
+            Utt::Lines(l) => e.generator(l.clone()),
+        }
+    }
+    fn describe(&self) -> Vec<String> {
+        match self {
+            Utt::Labels(l) => to_strings(l),
+            Utt::Lines(l) => l.clone(),
+        }
+    }
+    /// random utterance; with `timed` some lines carry 100 ns time stamps (never the last one
+    /// in half of the cases, so that the trailing-label fallback is exercised too)
+    fn random(env: &Env, rng: &mut Rng, lo: usize, hi: usize, timed: bool) -> Utt {
+        let labels = env.corpus.random_utterance(rng, lo, hi);
+        if !timed {
+            return Utt::Labels(labels);
+        }
+        let n = labels.len();
+        let open_end = rng.chance(0.5);
+        let mut t = 0u64;
+        Utt::Lines(
+            labels
+                .iter()
+                .enumerate()
+                .map(|(i, l)| {
+                    let a = t;
+                    t += rng.range(300_000, 3_000_000) as u64;
+                    if rng.chance(0.7) && !(open_end && i + 1 == n) {
+                        format!("{} {} {}", a, t, l)
+                    } else {
+                        l.to_string()
+                    }
+                })
+                .collect(),
+        )
+    }
+}
+
 /// reference: freshly loaded engine, same file, same condition values, single-threaded
-fn fresh_reference(path: &Path, cond: &Cond, labels: &[Label]) -> Result<Vec<f64>, String> {
+fn fresh_reference(path: &Path, cond: &Cond, labels: &Utt) -> Result<Vec<f64>, String> {
     let mut e = Engine::load(&[path]).map_err(|e| format!("{}", e))?;
     cond.apply(&mut e);
-    e.synthesize(labels.to_vec()).map_err(|e| format!("{}", e))
+    labels.synth(&e).map_err(|e| format!("{}", e))
 }
 
 fn bits_eq(a: &[f64], b: &[f64]) -> bool {
@@ -83,7 +137,7 @@ fn interleave(ctx: &mut Ctx, env: &Env, rng: &mut Rng) {
             return;
         }
     };
-    let cond = Cond::random(rng, v.nstreams, false);
+    let cond = Cond::random(rng, v.nstreams, true);
     let mut engine = match Engine::load(&[&v.path]) {
         Ok(e) => e,
         Err(e) => {
@@ -93,7 +147,7 @@ fn interleave(ctx: &mut Ctx, env: &Env, rng: &mut Rng) {
     };
     cond.apply(&mut engine);
     let nu = rng.range(2, 4);
-    let utts: Vec<Vec<Label>> = (0..nu).map(|_| env.corpus.random_utterance(rng, 1, if ctx.quick() { 4 } else { 12 })).collect();
+    let utts: Vec<Utt> = (0..nu).map(|_| Utt::random(env, rng, 1, if ctx.quick() { 4 } else { 12 }, cond.alignment)).collect();
     let mut refs = Vec::new();
     for u in &utts {
         match fresh_reference(&v.path, &cond, u) {
@@ -119,10 +173,10 @@ fn interleave(ctx: &mut Ctx, env: &Env, rng: &mut Rng) {
             0 | 1 => {
                 let w = if op == 0 {
                     prog.push(format!("synthesize(u{})", u));
-                    engine.synthesize(utts[u].clone())
+                    utts[u].synth(&engine)
                 } else {
                     prog.push(format!("clone().synthesize(u{})", u));
-                    engine.clone().synthesize(utts[u].clone())
+                    utts[u].synth(&engine.clone())
                 };
                 match w {
                     Ok(w) => {
@@ -142,7 +196,7 @@ fn interleave(ctx: &mut Ctx, env: &Env, rng: &mut Rng) {
             }
             2 => {
                 prog.push(format!("g = generator(u{})", u));
-                match engine.generator(utts[u].clone()) {
+                match utts[u].generator(&engine) {
                     Ok(g) => live.push((u, g, 0)),
                     Err(e) => {
                         ctx.violation("generator-err", d(&prog, J::from(format!("{}", e))));
@@ -229,7 +283,7 @@ fn setter_history(ctx: &mut Ctx, env: &Env, rng: &mut Rng) {
     };
     let n = v.nstreams;
     // the final condition: every knob gets a definite value
-    let mut fin = Cond::random(rng, n, false);
+    let mut fin = Cond::random(rng, n, true);
     fin.alpha = Some(fin.alpha.unwrap_or(0.4));
     fin.beta = Some(fin.beta.unwrap_or(0.0));
     fin.half_tone = Some(fin.half_tone.unwrap_or(0.0));
@@ -312,16 +366,16 @@ fn setter_history(ctx: &mut Ctx, env: &Env, rng: &mut Rng) {
         return;
     }
     for _ in 0..2 {
-        let u = env.corpus.random_utterance(rng, 1, if ctx.quick() { 4 } else { 12 });
-        match (a.synthesize(u.clone()), b.synthesize(u.clone())) {
+        let u = Utt::random(env, rng, 1, if ctx.quick() { 4 } else { 12 }, fin.alignment);
+        match (u.synth(&a), u.synth(&b)) {
             (Ok(x), Ok(y)) => {
                 if !bits_eq(&x, &y) {
-                    ctx.violation("setter-history-changes-the-waveform", d(J::obj().set("len_a", x.len()).set("len_b", y.len()).set("labels", J::from(to_strings(&u)))));
+                    ctx.violation("setter-history-changes-the-waveform", d(J::obj().set("len_a", x.len()).set("len_b", y.len()).set("labels", J::from(u.describe()))));
                     return;
                 }
                 ctx.count("history_pairs_compared", 1.0);
                 // a second call on the same engine repeats itself
-                if let Ok(z) = b.synthesize(u.clone()) {
+                if let Ok(z) = u.synth(&b) {
                     if !bits_eq(&y, &z) {
                         ctx.violation("repeating-a-call-changes-the-output", d(J::Null));
                         return;
@@ -354,7 +408,7 @@ struct Event {
 }
 
 /// `refs[u]` = hash of the single-threaded fresh-engine waveform of utterance u
-pub fn concurrent_run(engine: &Engine, utts: &[Vec<Label>], k: usize, calls_per_thread: usize, seed: u64, spin: bool) -> Vec<Event> {
+pub fn concurrent_run(engine: &Engine, utts: &[Utt], k: usize, calls_per_thread: usize, seed: u64, spin: bool) -> Vec<Event> {
     let barrier = Arc::new(Barrier::new(k));
     let log: Arc<Mutex<Vec<Event>>> = Arc::new(Mutex::new(Vec::new()));
     let t0 = Instant::now();
@@ -379,12 +433,12 @@ pub fn concurrent_run(engine: &Engine, utts: &[Vec<Label>], k: usize, calls_per_
                     let kind = rng.below(3);
                     let t_call = t0.elapsed().as_nanos();
                     let (op, res): (&'static str, Result<Vec<f64>, String>) = match kind {
-                        0 => ("synthesize", engine.synthesize(utts[u].clone()).map_err(|e| format!("{}", e))),
-                        1 => ("clone.synthesize", engine.clone().synthesize(utts[u].clone()).map_err(|e| format!("{}", e))),
+                        0 => ("synthesize", utts[u].synth(engine).map_err(|e| format!("{}", e))),
+                        1 => ("clone.synthesize", utts[u].synth(&engine.clone()).map_err(|e| format!("{}", e))),
                         _ => (
                             "generator+steps",
-                            engine
-                                .generator(utts[u].clone())
+                            utts[u]
+                                .generator(engine)
                                 .map(|mut g| {
                                     let fp = g.fperiod();
                                     let mut out = Vec::new();
@@ -445,7 +499,7 @@ fn concurrent(ctx: &mut Ctx, env: &Env, rng: &mut Rng, idx: usize) {
             return;
         }
     };
-    let cond = Cond::random(rng, v.nstreams, false);
+    let cond = Cond::random(rng, v.nstreams, true);
     let mut engine = match Engine::load(&[&v.path]) {
         Ok(e) => e,
         Err(e) => {
@@ -454,7 +508,7 @@ fn concurrent(ctx: &mut Ctx, env: &Env, rng: &mut Rng, idx: usize) {
         }
     };
     cond.apply(&mut engine);
-    let utts: Vec<Vec<Label>> = (0..6).map(|_| env.corpus.random_utterance(rng, 1, if ctx.quick() { 3 } else { 8 })).collect();
+    let utts: Vec<Utt> = (0..6).map(|_| Utt::random(env, rng, 1, if ctx.quick() { 3 } else { 8 }, cond.alignment)).collect();
     let mut refs = Vec::new();
     for u in &utts {
         match fresh_reference(&v.path, &cond, u) {
@@ -561,15 +615,15 @@ fn miri_threads(ctx: &mut Ctx, idx: usize) {
             return;
         }
     };
-    let utts: Vec<Vec<Label>> = vec![
-        vec![TINY_LABELS[0].parse().unwrap(), TINY_LABELS[1].parse().unwrap()],
-        vec![TINY_LABELS[2].parse().unwrap()],
+    let utts: Vec<Utt> = vec![
+        Utt::Labels(vec![TINY_LABELS[0].parse().unwrap(), TINY_LABELS[1].parse().unwrap()]),
+        Utt::Labels(vec![TINY_LABELS[2].parse().unwrap()]),
     ];
     let refs: Vec<u64> = utts
         .iter()
         .map(|u| {
             let e = Engine::load(&[&path]).expect("reload");
-            hash_f64s(&e.synthesize(u.clone()).expect("reference"))
+            hash_f64s(&u.synth(&e).expect("reference"))
         })
         .collect();
     let k = 2 + idx % 2;
